@@ -86,7 +86,7 @@ func (c chainState) source() *hist.Source {
 if [ -e "$VMARK/fail-x-exit" ]; then echo "fail $GROG_TARGET" >> "$VTRACE"; echo "x fails on purpose"; exit 1; fi
 cut -c1 x.in | tr -d '\n' > x.out
 echo "end $GROG_TARGET" >> "$VTRACE"`
-	s.Targets = append(s.Targets, hist.Target{Pkg: "p", Name: "x", Command: xCmd, Inputs: []string{"x.in"}, Outputs: []string{"x.out"}, Tags: tags("x")})
+	s.Targets = append(s.Targets, hist.Target{Pkg: "p", Name: "x", Command: xCmd, Inputs: []string{"x.in"}, Outputs: []string{"x.out"}, Tags: tags("x"), Timeout: "10m"}) // a timeout that never expires: a plain failure must still be a failure
 	yCmd := traceStart + `
 if [ -e "$VMARK/fail-y-exit" ]; then echo "fail $GROG_TARGET" >> "$VTRACE"; echo "y fails on purpose"; exit 3; fi
 if [ -e "$VMARK/fail-y-timeout" ]; then sleep 30; fi
@@ -427,7 +427,7 @@ func (e *chainEngine) doOp(n *cnode, op chainOp) *cnode {
 	if n.st.Minimal {
 		buildArgs = append(buildArgs, "--load-outputs=minimal")
 	}
-	rr := box.Run(grog, hist.RunOpts{Args: buildArgs, Env: env})
+	rr := box.Run(grog, hist.RunOpts{Args: buildArgs, Env: env, Ceiling: 60e9})
 	e.mu.Lock()
 	e.builds++
 	e.mu.Unlock()
@@ -502,7 +502,7 @@ func (e *chainEngine) doOp(n *cnode, op chainOp) *cnode {
 			case "failing-output-check":
 				sig = "C14:cached-result-served-although-output-check-fails://p:" + t
 			}
-			if r == "no-cached-result" && n.model.Failed[t] {
+			if (r == "no-cached-result" || r == "tainted") && n.model.Failed[t] {
 				// its last execution failed: the failure must not have left a cache entry
 				sig = "C05:failed-target-not-attempted-again://p:" + t
 			}
